@@ -30,7 +30,7 @@ func allViews(pj *simdjson.ParsedJson) string {
 
 func checkC16(c *Ctx) {
 	r := c.Rng
-	c.Ev.Coverage.Rule = "(i) with string copying (default), after Parse/ParseND returns the caller's buffer is overwritten (zeros, 0xff, random, shifted copy of itself) and every read path (traversal, Interface, ForEach), MarshalJSON and a serialize round trip must be unchanged; (ii) copy and no-copy parses expose the same document while the input is intact; (iii) Clone(nil) and Clone(reused destination): random edit histories applied alternately to the original and to the clone, each compared after every step against its own expected document, the other must not move; buffers of original and clone must not alias. non-trivial = document with at least one string; distinct = by (document, overwrite kind / edit history)"
+	c.Ev.Coverage.Rule = "(i) with string copying (default), after Parse/ParseND returns the caller's buffer is overwritten (zeros, 0xff, random, shifted copy of itself) and every read path (traversal, Interface, ForEach), MarshalJSON and a serialize round trip must be unchanged; (ii) copy and no-copy parses expose the same document while the input is intact; (iii) Clone(nil), Clone(reused destination) and Clone(&zero value): random edit histories applied alternately to the original and to the clone, each compared after every step against its own expected document, the other must not move; buffers of original and clone must not alias; (iv) one Object/Array destination value reused across documents that share buffers (Parse with reuse in no-copy mode, Clone into an earlier clone, Deserialize into an earlier result) reads the current document. non-trivial = document with at least one string; distinct = by (document, overwrite kind / edit history)"
 	n := c.N(1200, 15000)
 	var cloneDst *simdjson.ParsedJson
 	for i := 0; i < n; i++ {
@@ -161,6 +161,9 @@ func checkC16(c *Ctx) {
 		var clone *simdjson.ParsedJson
 		if i%4 == 0 && cloneDst != nil {
 			clone = orig.Clone(cloneDst)
+		} else if i%6 == 2 {
+			var fresh simdjson.ParsedJson // a destination that has never held anything
+			clone = orig.Clone(&fresh)
 		} else {
 			clone = orig.Clone(nil)
 		}
@@ -228,6 +231,7 @@ func checkC16(c *Ctx) {
 			c.Ev.Sample(map[string]interface{}{"doc": printable(trunc(string(doc), 100)), "ops": ops})
 		}
 	}
+	c.c16ReusedDestinations(c.N(300, 4000))
 }
 
 func dumpOf(pj *simdjson.ParsedJson) string {
@@ -280,4 +284,104 @@ func overlapping(a, b *simdjson.ParsedJson) string {
 		out = append(out, "Message")
 	}
 	return strings.Join(out, ",")
+}
+
+// c16ReusedDestinations: ONE Object / Array / Iter destination value reused
+// across different documents that share internal buffers (a ParsedJson reused
+// by Parse in no-copy mode, Clone into an earlier clone, Deserialize into an
+// earlier result): what is read through the reused destination must be the
+// CURRENT document, exactly what a fresh destination reads.
+func (c *Ctx) c16ReusedDestinations(n int) {
+	r := c.Rng
+	var obj simdjson.Object
+	var arr simdjson.Array
+	var reusePJ, cloneDst, deserDst *simdjson.ParsedJson
+	ser := simdjson.NewSerializer()
+	view := func(pj *simdjson.ParsedJson, reused bool) string {
+		var b strings.Builder
+		defer func() {
+			if rr := recover(); rr != nil {
+				fmt.Fprintf(&b, "PANIC %v", rr)
+			}
+		}()
+		it := pj.Iter()
+		it.AdvanceInto()
+		_, root, err := it.Root(nil)
+		if err != nil {
+			return "ERR root"
+		}
+		switch root.Type() {
+		case simdjson.TypeObject:
+			var o *simdjson.Object
+			if reused {
+				o, err = root.Object(&obj)
+			} else {
+				o, err = root.Object(nil)
+			}
+			if err != nil {
+				return "ERR object"
+			}
+			m, err := o.Map(nil)
+			if err != nil {
+				return "ERR map " + err.Error()
+			}
+			dumpIface(&b, m)
+		case simdjson.TypeArray:
+			var a *simdjson.Array
+			if reused {
+				a, err = root.Array(&arr)
+			} else {
+				a, err = root.Array(nil)
+			}
+			if err != nil {
+				return "ERR array"
+			}
+			v, err := a.Interface()
+			if err != nil {
+				return "ERR iface " + err.Error()
+			}
+			dumpIface(&b, v)
+		}
+		return b.String()
+	}
+	for i := 0; i < n; i++ {
+		o := smallOpts(r)
+		o.NoDupKey = true
+		doc := genDoc(r, o)
+		if i%3 == 0 {
+			doc = []byte(fmt.Sprintf(`{"name":"%s","kind":"doc%d","list":["%s",%d]}`, strPool[r.Intn(4)], i, strPool[r.Intn(4)], i))
+		}
+		out := implParse(doc, false, false, reusePJ) // no-copy: strings live in Message
+		if out.Err {
+			continue
+		}
+		reusePJ = out.PJ
+		info := map[string]interface{}{"doc_text": printable(doc), "step": i}
+		c.Ev.Count("reused-destination", []byte(fmt.Sprint(i)+string(doc)), true)
+		for _, route := range []string{"parse-reuse", "clone-into-earlier-clone", "deserialize-into-earlier-result"} {
+			pj := out.PJ
+			switch route {
+			case "clone-into-earlier-clone":
+				pj = out.PJ.Clone(cloneDst)
+				cloneDst = pj
+			case "deserialize-into-earlier-result":
+				blob, pan := safeSerialize(ser, out.PJ)
+				if pan != "" {
+					continue
+				}
+				d, err, pan2 := safeDeserialize(ser, blob, deserDst)
+				if err != nil || pan2 != "" {
+					continue
+				}
+				pj, deserDst = d, d
+			}
+			want := view(pj, false)
+			got := view(pj, true)
+			if got != want {
+				info["route"], info["reused_dst_reads"], info["fresh_dst_reads"] = route, trunc(got, 300), trunc(want, 300)
+				c.Violate("aliasing", "reading through a reused Object/Array destination shows another document's bytes", "reused-dst-stale", info)
+				return
+			}
+		}
+	}
 }
